@@ -11,6 +11,8 @@
 //!   bde_toks   <bdoc>   /  bde_tapeof <bdoc>           raw lexemes / tape of a binary document (Lean `tokensOf`/`tapeOf`
 //!                                                      vs. the real Lexer / BinaryTape on the rendering)
 //!   x-c04-real <cfg> <hex>                             fixed real derived structs vs. TySeed with the equivalent Ty
+//!   x-c04-mixed <cfg> <ty> <hex>                       object -> array mixed container: the three real paths (known finding
+//!                                                      mixed-container-paths-disagree: tape versus sequential)
 //!   x-rare-bin <hex>                                   rarely used REAL target types (borrowed str / Cow, char, bytes, unit,
 //!                                                      newtype / tuple structs, arrays, i128 / u128, enums, IgnoredAny, maps
 //!                                                      keyed by token id) through all paths x resolver kinds x two flavors:
@@ -1373,6 +1375,17 @@ pub fn exec(w: &[&str], obs: &mut Obs) -> Option<String> {
             let d = parse_bdoc(bd)?;
             Some(match BinaryTape::from_slice(&render_bdoc(&d)) { Ok(t) => show::bin_tape(t.tokens()), Err(_) => "err:parse".to_string() })
         }
+        ["x-c04-mixed", cfg, ty, h] => {
+            // an object that continues as a bare list of scalars: the sequential paths pair the trailing scalars as
+            // `key value` (the `=` is optional there), the tape path presents the MixedContainer marker as a key
+            // (Lean: Proofs/BinDeMixed.lean); a request that reads into the container sees different things
+            let (c, ty, data) = (parse_cfg(cfg)?, parse_root(ty)?, unhex(h)?);
+            let (t, sl, st) = (run_tape(&c, &ty, &data), run_slice(&c, &ty, &data), run_stream(&c, &ty, &data, 32 * 1024, vec![]));
+            if sl != st { obs.violation("c04-mixed-seq-paths-disagree", &case(), &format!("on-demand {} stream {}", sl, st)); }
+            if t != sl { obs.violation("mixed-container-paths-disagree", &case(), &format!("tape {} on-demand / stream {}", t, sl)); }
+            else { obs.count("mixed:paths-agree"); }
+            Some(format!("{} | {}", t, sl))
+        }
         ["x-rare-bin", h] => {
             let data = unhex(h)?;
             Some(rare::run(&data, obs, &case))
@@ -1657,6 +1670,25 @@ pub fn gen(g: &mut Gen) {
         g.emit(format!("x-c04-tup {} {}", show_cfg(&c), hex(&render_bdoc(&bd))));
     }
     g.count("tuple-struct-docs");
+    // object -> array mixed containers: model fidelity per path (bde_ lines) and the cross-path difference (known finding)
+    for i in 0..12usize {
+        let mut data = vec![];
+        let mut leaf = |l: BLeaf, out: &mut Vec<u8>| render_leaf(&l, out);
+        leaf(BLeaf::Unquoted(b"a".to_vec()), &mut data); w16(&mut data, docgen::L_EQUAL); w16(&mut data, docgen::L_OPEN);
+        leaf(BLeaf::Unquoted(b"b".to_vec()), &mut data); w16(&mut data, docgen::L_EQUAL); leaf(BLeaf::I32(1 + i as i32), &mut data);
+        let ntail = 1 + i % 4;
+        for j in 0..ntail {
+            if j % 2 == 0 { leaf(if i % 3 == 0 { BLeaf::Id(0x2000 + 7 * j as u16) } else { BLeaf::Unquoted(vec![b'c' + j as u8]) }, &mut data); }
+            else { leaf(BLeaf::I32(10 + j as i32), &mut data); }
+        }
+        w16(&mut data, docgen::L_CLOSE);
+        let c = gen_cfg(&mut g.rng);
+        let tys = ["map(map(i32))", "map(map(any))", "st(a:st(b:i32;c:opt(any)))", "map(ign)", "st(a:any)"];
+        let ty = parse_root(tys[i % tys.len()]).unwrap();
+        g.emit(format!("x-c04-mixed {} {} {}", show_cfg(&c), show_root(&ty), hex(&data)));
+        emit_paths(g, &c, &ty, &data, true);
+        g.count("probe:mixed-container");
+    }
     // rarely used real target types x resolver kinds x flavors (implementation-only)
     let mr = g.budget(250, 5000);
     for i in 0..mr {
